@@ -272,7 +272,7 @@ def laggingCas (obs : Json) : List String :=
   l2 ++ kids l2
 
 def rpPreds (obs : Json) (objs : List (String × List (Nat × ClassO))) (synced : String → Bool)
-    (ignoredRevokes : List String) : List String :=
+    (ignoredRevokes ignoredMissing : List String) : List String :=
   let rp := jget obs "rp"
   if jisNull rp then [] else
   -- decoded manifests/CRLs of every CA whose server content is its object set
@@ -302,6 +302,8 @@ def rpPreds (obs : Json) (objs : List (String × List (Nat × ClassO))) (synced 
     let uri := jstr (jget p "uri")
     if kind == "decode-error" && (detail.splitOn "resources extensions are missing").length > 1
     then "RpTreeValid/empty-resources-cert"
+    else if kind == "no-manifest" && ignoredMissing.any (fun k => (uri.splitOn s!"/{k}.").length > 1)
+    then "RpTreeValid/no-manifest-after-ignored-revocation/mapping-to-missing-class"
     else if kind == "no-manifest" && ignoredRevokes.any (fun k => (uri.splitOn s!"/{k}.").length > 1)
     then "RpTreeValid/no-manifest-after-ignored-revocation"
     else s!"RpTreeValid/{kind}") ++
